@@ -34,7 +34,7 @@ fn fp(a: &Arithmetic<f64>) -> String {
 
 /// One fixed tenant program; the returned transcript holds every observable result (Debug text
 /// prints floats shortest-round-trip, i.e. bit-exactly up to the sign of NaN).
-fn tenant(k: usize) -> String {
+fn tenant(k: usize, v: usize) -> String {
     use stats_ci::comparison::{Paired, Unpaired};
     use stats_ci::mean::{Geometric, Harmonic};
     use stats_ci::utils::KahanSum;
@@ -82,6 +82,47 @@ fn tenant(k: usize) -> String {
             let g2 = Geometric::<f64>::from_iter(&[2.0, 0.5, 4.0]).unwrap() + g;
             write!(out, "{:?};{:?};{:?};{:?};{:?};{:?};{:?}", g, h, g.ci_mean(c2), h.ci_mean(cu), g2.ci_mean(cl), h.sample_sem(), g.sample_mean()).unwrap();
             write!(out, ";{:?}", Harmonic::<f64>::ci(c2, &[1.0, 2.0, -1.0, 4.0])).unwrap();
+        }
+        3 => {
+            // a sweep over many confidence levels in all three kinds, for the z-based intervals
+            // (proportions, quantile ranks) and a t-based one: more distinct requests than any
+            // small table of remembered answers has room for
+            let a = Arithmetic::<f64>::from_iter(&DATA[..12].to_vec()).unwrap();
+            let st = quantile::Stats::new(57);
+            for j in 0..10u32 {
+                // each variant walks the same levels from its own starting point
+                let i = (j + 3 * v as u32) % 10;
+                let level = 0.52 + 0.047 * i as f64;
+                for c in [Confidence::new_two_sided(level), Confidence::new_upper(level), Confidence::new_lower(level)] {
+                    write!(out, "{:?};", proportion::ci(c, 90 + i as usize, 31)).unwrap();
+                    if i % 3 == 1 {
+                        write!(out, "{:?};", st.ci(c, 0.5)).unwrap();
+                    }
+                    if i % 5 == 0 {
+                        write!(out, "{:?};", a.ci_mean(c)).unwrap();
+                    }
+                }
+            }
+        }
+        4 => {
+            // long batches: one call that consumes hundreds of records (whatever a call stages or
+            // blocks internally is exercised beyond its first block)
+            // each variant has its own data (same lengths)
+            let xs: Vec<f64> = (0..420).map(|i| (1.0 + v as f64) * (0.25 + ((i * 37 + 11 + 13 * v) % 101) as f64 * 0.125) + if i % 97 == 0 { 1e6 } else { 0.0 }).collect();
+            let ys: Vec<f32> = xs.iter().map(|&x| (x * 0.5) as f32).collect();
+            let mut a = Arithmetic::<f64>::new();
+            a.extend(&xs).unwrap();
+            let b = Arithmetic::<f32>::from_iter(&ys).unwrap();
+            let mut g = Geometric::<f64>::new();
+            g.extend(&xs[..300].to_vec()).unwrap();
+            let mut p = Paired::<f64>::default();
+            p.extend(&xs[..210].to_vec(), &xs[210..].to_vec()).unwrap();
+            let mut u = Unpaired::<f64>::default();
+            u.extend_a(&xs[..300].to_vec()).unwrap();
+            u.extend_b(&xs[300..].to_vec()).unwrap();
+            let mut s = proportion::Stats::default();
+            s.extend_if(&xs, |&x| x > 5.0);
+            write!(out, "{:?};{:?};{:?};{:?};{:?};{:?}", a, b, g, p, u, s).unwrap();
         }
         _ => {
             // comparisons, proportions, quantiles — with their documented refusals
@@ -176,22 +217,33 @@ fn main() {
     // makes the calls share behind the callers' backs (scratch buffer, pool, memo, counter) and
     // updates without owning the interleaving shows as a differing transcript.
     {
-        let alone: Vec<String> = (0..3).map(tenant).collect();
-        let alone = Arc::new(alone);
-        let hs: Vec<_> = (0..3usize)
-            .map(|t| {
-                let alone = alone.clone();
-                thread::spawn(move || {
-                    for i in 0..3usize {
-                        let k = (t + i) % 3;
-                        let got = tenant(k);
-                        assert_eq!(got, alone[k], "S7: tenant program {k} run next to other tenants differs from the same program run alone");
-                    }
+        const TENANTS: usize = 5;
+        // "light" (quick tier): only the two programs all three threads run at the same time
+        let light = std::env::args().any(|a| a == "light");
+        for k in if light { 3..TENANTS } else { 0..TENANTS } {
+            // threads 0 and 1 run the same program at the same time on their own data / in their
+            // own order (variants 0 and 1); thread 2 runs the next program (variant 2)
+            // (for the level sweep and the long batches all three threads run the same program)
+            let plan: [(usize, usize); 3] = [(k, 0), (k, 1), (if k >= 3 { k } else { (k + 1) % TENANTS }, 2)];
+            let alone: Vec<String> = plan.iter().map(|&(k, v)| tenant(k, v)).collect();
+            let alone = Arc::new(alone);
+            let hs: Vec<_> = (0..3usize)
+                .map(|t| {
+                    let alone = alone.clone();
+                    thread::spawn(move || {
+                        let (k, v) = plan[t];
+                        let got = tenant(k, v);
+                        if got != alone[t] {
+                            let (a, b): (Vec<&str>, Vec<&str>) = (got.split(';').collect(), alone[t].split(';').collect());
+                            let i = a.iter().zip(b.iter()).position(|(x, y)| x != y).unwrap_or(a.len().min(b.len()));
+                            panic!("S7: tenant program {k} (variant {v}) run next to other tenants differs from the same program run alone at item {i}: next to others {:?}, alone {:?}", a.get(i), b.get(i));
+                        }
+                    })
                 })
-            })
-            .collect();
-        for h in hs {
-            h.join().unwrap();
+                .collect();
+            for h in hs {
+                h.join().unwrap();
+            }
         }
     }
 
